@@ -1109,7 +1109,7 @@ MUTANTS += [
 ALL = ["C%02d" % i for i in range(1, 21)]
 HCN = HC + "connection.rs"
 MUTANTS += [
- dict(id="BENIGN-mio-early-return-on-invalid-id", props=ALL, benign=True,
+ dict(id="BENIGN-mio-early-return-on-invalid-id", props=["C06", "C11", "C03", "C05", "C12"], benign=True,
       edits=[(MIO+"mod.rs", """            Request::Announce(request) => {
                 if self
                     .validator
@@ -1168,7 +1168,7 @@ MUTANTS += [
 
                 return Some(response);
             }""")]),
- dict(id="BENIGN-udp-export-tmp-path-local", props=ALL, benign=True,
+ dict(id="BENIGN-udp-export-tmp-path-local", props=["C20", "C01", "C10", "C12"], benign=True,
       edits=[(SWR, """        let mut opt_scrape_export_writer = if export_full_scrape {
             match File::create(config.scrape_exports.tmp_path()) {""", """        let tmp_path = config.scrape_exports.tmp_path();
         let mut opt_scrape_export_writer = if export_full_scrape {
@@ -1177,7 +1177,7 @@ MUTANTS += [
                     config.scrape_exports.tmp_path(),
                     &config.scrape_exports.path,
                 ) {""", """                if let Err(err) = ::std::fs::rename(&tmp_path, &config.scrape_exports.path) {""")]),
- dict(id="BENIGN-udp-scrape-family-by-match", props=ALL, benign=True,
+ dict(id="BENIGN-udp-scrape-family-by-match", props=["C03", "C06", "C01", "C12"], benign=True,
       edits=[(SWR, """        if src.is_ipv4() {
             self.ipv4.scrape(request)
         } else {
@@ -1186,14 +1186,14 @@ MUTANTS += [
             IpAddr::V4(_) => self.ipv4.scrape(request),
             IpAddr::V6(_) => self.ipv6.scrape(request),
         }""")]),
- dict(id="BENIGN-udp-announce-method-min-and-locals", props=ALL, benign=True,
+ dict(id="BENIGN-udp-announce-method-min-and-locals", props=["C02", "C01", "C12", "C20", "C18"], benign=True,
       edits=[(SWR, """            ::std::cmp::min(
                 config.protocol.max_response_peers,
                 request.peers_wanted.0.get().try_into().unwrap(),
             )""", """            let wanted: usize = request.peers_wanted.0.get().try_into().unwrap();
 
             config.protocol.max_response_peers.min(wanted)""")]),
- dict(id="BENIGN-udp-scrape-statistics-map-or-else", props=ALL, benign=True,
+ dict(id="BENIGN-udp-scrape-statistics-map-or-else", props=["C01", "C06", "C04", "C12"], benign=True,
       edits=[(SWR, """            let statistics = if let Some(peer_map) = torrent_map_shard.read().get(&info_hash) {
                 peer_map.read().scrape_statistics()
             } else {
@@ -1210,7 +1210,7 @@ MUTANTS += [
                     completed: NumberOfDownloads::new(0),
                 },
             };""")]),
- dict(id="BENIGN-http-write-response-hoisted-start", props=ALL, benign=True,
+ dict(id="BENIGN-http-write-response-hoisted-start", props=["C16", "C12", "C18"], benign=True,
       edits=[(HCN, """        {
             let start = RESPONSE_HEADER_A.len();
             let end = start + RESPONSE_HEADER_B.len();
@@ -1240,7 +1240,7 @@ MUTANTS += [
 
         self.response_buffer[digits_start..digits_start + content_len_bytes.len()]
             .copy_from_slice(content_len_bytes);""")]),
- dict(id="BENIGN-http-announce-index-before-channel", props=ALL, benign=True,
+ dict(id="BENIGN-http-announce-index-before-channel", props=["C16", "C11", "C12", "C03"], benign=True,
       edits=[(HCN, """                    let (response_sender, response_receiver) = shared_channel::new_bounded(1);
 
                     let request = ChannelRequest::Announce {
@@ -1260,7 +1260,7 @@ MUTANTS += [
                         response_sender,
                     };
 """)]),
- dict(id="BENIGN-http-keep-alive-loop-condition", props=ALL, benign=True,
+ dict(id="BENIGN-http-keep-alive-loop-condition", props=["C16", "C12", "C03"], benign=True,
       edits=[(HCN, """            if !self.config.network.keep_alive {
                 break;
             }
@@ -1274,7 +1274,7 @@ MUTANTS += [
 
             return Ok(());
         }""")]),
- dict(id="BENIGN-ws-announce-early-return-when-forbidden", props=ALL, benign=True,
+ dict(id="BENIGN-ws-announce-early-return-when-forbidden", props=["C17", "C11", "C12"], benign=True,
       edits=[(WCN, """        let info_hash = request.info_hash;
 
         if self
@@ -1291,7 +1291,7 @@ MUTANTS += [
 
         if allowed {
             let mut announced_info_hashes""")]),
- dict(id="BENIGN-ws-scrape-count-after-meta", props=ALL, benign=True,
+ dict(id="BENIGN-ws-scrape-count-after-meta", props=["C17", "C12"], benign=True,
       edits=[(WCN, """        let pending_worker_out_messages = info_hashes_by_worker.len();
 
         let pending_scrape_response = PendingScrapeResponse {
@@ -1322,7 +1322,7 @@ MUTANTS += [
 ]
 
 MUTANTS += [
- dict(id="BENIGN-ws-ownership-demorgan", props=ALL, benign=True,
+ dict(id="BENIGN-ws-ownership-demorgan", props=["C08", "C17", "C09", "C12"], benign=True,
       edits=[(WS+"storage.rs", """            if request_sender_meta.connection_id != previous_peer.connection_id
                 || request_sender_meta.out_message_consumer_id.0 != previous_peer.consumer_id.0
             {
@@ -1333,7 +1333,7 @@ MUTANTS += [
             if !same_connection {
                 return;
             }""")]),
- dict(id="BENIGN-http-clean-if-else-instead-of-early-return", props=ALL, benign=True,
+ dict(id="BENIGN-http-clean-if-else-instead-of-early-return", props=["C07", "C11", "C10", "C12"], benign=True,
       edits=[(HST, """            if !access_list_cache
                 .load()
                 .allows(config.access_list.mode, &info_hash.0)
@@ -1366,7 +1366,7 @@ MUTANTS += [
                 false
             }
         });""")]),
- dict(id="BENIGN-http-numwant-match-reordered", props=ALL, benign=True,
+ dict(id="BENIGN-http-numwant-match-reordered", props=["C02", "C07", "C12"], benign=True,
       edits=[(HST, """        let max_num_peers_to_take = match request.numwant {
             Some(0) | None => config.protocol.max_peers,
             Some(numwant) => numwant.min(config.protocol.max_peers),
@@ -1376,7 +1376,7 @@ MUTANTS += [
             Some(0) => max_peers,
             Some(numwant) => ::std::cmp::min(numwant, max_peers),
         };""")]),
- dict(id="BENIGN-udp-validator-named-temps", props=ALL, benign=True,
+ dict(id="BENIGN-udp-validator-named-temps", props=["C05", "C12", "C06"], benign=True,
       edits=[(US+"workers/socket/validator.rs", """        if !constant_time_eq(hash, &self.hash(elapsed, source_addr.get().ip())) {
             return false;
         }""", """        let source_ip = source_addr.get().ip();
@@ -1385,7 +1385,7 @@ MUTANTS += [
         if !constant_time_eq(hash, &expected_hash) {
             return false;
         }""")]),
- dict(id="BENIGN-ws-announce-response-local-counts", props=ALL, benign=True,
+ dict(id="BENIGN-ws-announce-response-local-counts", props=["C08", "C09", "C17", "C12"], benign=True,
       edits=[(WS+"storage.rs", """        let response = OutMessage::AnnounceResponse(AnnounceResponse {
             action: AnnounceAction::Announce,
             info_hash: request.info_hash,
